@@ -78,6 +78,8 @@ func (c *Case) scriptLines(id int) []string {
 			lines = append(lines, "probe:fail "+at)
 		case 't':
 			lines = append(lines, "probe:stop "+at)
+		case 'c':
+			lines = append(lines, "probe:clear "+at)
 		case 'x':
 			// the marker records `cmd t i` and `ret t i err` (the position at which RunLoop is about to
 			// fail) and returns nil; the next line names a command that does not exist
